@@ -358,6 +358,11 @@ def _refuse_manager(rep, ex: Explorer):
         if pto is True:
             rep.check(not dele and p.outcome[0] == "return", "TIMEOUT.row", site, "after preprocessing expiry", "no query is evaluated on a base whose preprocessing expired",
                       extracted=f"{p.outcome[0]}, {len(dele)} evaluation call(s)", required="rows without evaluation", function=site)
+        elif p.outcome[0] == "return" and not dele:
+            # rows made up without asking the operator are unflagged answers nobody computed
+            why = "; ".join(show_pred(k if v else ("not", k))[:70] for k, v in p.decisions if k not in (("truthy", "done"), ("truthy", "pto")))
+            rep.violation("TIMEOUT.row", site, "rows without evaluation", "queries are reported without being evaluated only when preprocessing expired (the rows then carry the preprocessing flag)",
+                          extracted=f"returns rows without calling an evaluation wrapper although preprocessing did not expire ({why or 'unconditionally'})", required="evaluate the queries", function=site)
     rep.floor("refusal paths of Inference.inference", n, 1)
     # manager: preprocess_belief_base precedes inference on every path (decided on the paths of the manager's row rule)
     saved = rep.only
@@ -448,6 +453,47 @@ def timeout_flow(rep, ex: Explorer):
                 rep.check(reraises, "TIMEOUT.flow", where, f"handler for {'/'.join(types)}", "a handler that can catch an expiry re-raises it",
                           extracted="re-raises" if reraises else "swallows", required="re-raise", function=f"{fi.path}:{fi.qualname[len(fi.module) + 1:]}")
     rep.floor("handlers able to catch TimeoutError", n_handlers, 3)
+    # the converting handlers are total: everything they read from the state exists for every operator (a KeyError
+    # raised inside the handler - also inside the arguments of a logging call - would escape instead of the flagged row)
+    cfi = prog.functions.get("inference.inference_manager.create_epistemic_state")
+    base_keys = set()
+    if cfi is not None:
+        for n in ast.walk(cfi.node):
+            if isinstance(n, ast.Subscript) and isinstance(n.ctx, ast.Store) and isinstance(n.slice, ast.Constant) and isinstance(n.slice.value, str):
+                base_keys.add(n.slice.value)
+            if isinstance(n, ast.Dict):
+                base_keys |= {k.value for k in n.keys if isinstance(k, ast.Constant) and isinstance(k.value, str)}
+    if not base_keys:
+        raise AnalysisError("create_epistemic_state: no state keys found")
+
+    def state_reads(node):
+        out = []
+        for n in ast.walk(node):
+            if isinstance(n, ast.Subscript) and isinstance(n.ctx, ast.Load) and isinstance(n.slice, ast.Constant) and isinstance(n.slice.value, str) and "epistemic_state" in ast.unparse(n.value) and not isinstance(n.value, ast.Subscript):
+                out.append(n)
+        return out
+
+    n_reads = 0
+    for fi in funcs:
+        if fi.qualname not in helpers:
+            continue
+        written = {n.slice.value for n in ast.walk(fi.node) if isinstance(n, ast.Subscript) and isinstance(n.ctx, ast.Store) and isinstance(n.slice, ast.Constant) and isinstance(n.slice.value, str) and "epistemic_state" in ast.unparse(n.value)}
+        for t in ast.walk(fi.node):
+            if not isinstance(t, ast.Try):
+                continue
+            for h in t.handlers:
+                types = [ast.unparse(x).rsplit(".", 1)[-1] for x in ((h.type.elts if isinstance(h.type, ast.Tuple) else [h.type]) if h.type is not None else [])]
+                if "TimeoutError" not in types:
+                    continue
+                for st in h.body:
+                    for r in state_reads(st):
+                        n_reads += 1
+                        k = r.slice.value
+                        # keys written in this handler before the read count as present
+                        rep.check(k in base_keys or k in written, "TIMEOUT.flow", f"{fi.path}:{fi.qualname[len(fi.module) + 1:]}:{r.lineno}", f"handler reads state[{k!r}]",
+                                  "what the converting handler reads from the state exists for every operator (otherwise the KeyError escapes instead of the flagged row)",
+                                  extracted=f"state[{k!r}] is not among the keys every state has ({', '.join(sorted(base_keys))})", required="a key created with the state or written in this function", function=f"{fi.path}:{fi.qualname[len(fi.module) + 1:]}")
+    rep.floor("state reads inside converting handlers", n_reads, 1)
     # TIMEOUT.guarded-raise: the three raise sites are decided by the path rules (MCS.loop / Z3MCS.loop / CHECK.three-way);
     # a raise site anywhere else has no rule that reads its guard: recognised guard forms pass, anything else is undecided
     COVERED = ("OptimizerRC2.minimal_correction_subsets", "SystemWZ3.get_all_xi_i", "LexInfZ3.get_all_xi_i")
@@ -607,6 +653,12 @@ def _rows(rep, ex: Explorer, which=("single", "worker", "multi", "manager")):
                 if ev.kind == "loop" and not Q and ev.fam == ("members", ("keys", "Q")):
                     for case in ev.cases:
                         _check_query_call(rep, site, list(iter_events(case.events)), ev.evar, True)
+                        if case.sig[0] == "next":
+                            # every query the loop goes on from (answered or expired) has left exactly one row
+                            stored = [e2 for e2, Q2 in iter_events(case.events) if e2.kind == "dict.set" and not Q2]
+                            how = "; ".join(show_pred(k if v else ("not", k))[:60] for k, v in case.guard) or "always"
+                            rep.check(len(stored) == 1, "ROWS.key", site, f"a row for every query ({how[:80]})", "whatever happens to a query (answered, expired), the loop stores one row for it before it goes on",
+                                      extracted=f"{len(stored)} row(s) stored", required="1", function=site)
             if p.outcome[0] == "raise":
                 _check_escape(rep, site, p)
             if p.outcome[0] == "return":
@@ -623,9 +675,12 @@ def _rows(rep, ex: Explorer, which=("single", "worker", "multi", "manager")):
         qual = f"{INF}._multi_inference_worker"
         site = fn_label(prog, qual)
 
+        wheld = {}
+
         def setup_w(I):
             s, es, bb = _self(I)
-            return [s, ElemV(QUERY, "key"), make_query(), I.alloc(HDict()), Sym("timeout", "int")], {}
+            wheld["ret"] = I.alloc(HDict())
+            return [s, ElemV(QUERY, "key"), make_query(), wheld["ret"], Sym("timeout", "int")], {}
 
         paths = ex.run(qual, setup_w, summaries=SUMMARIES, key="worker")
         n = 0
@@ -640,6 +695,8 @@ def _rows(rep, ex: Explorer, which=("single", "worker", "multi", "manager")):
             sets = [ev for ev, Q in iter_events(p.events) if ev.kind == "dict.set"]
             for ev in sets:
                 n += 1
+                rep.check(isinstance(ev.obj, Ref) and ev.obj == wheld.get("ret"), "PAR.key", f"{site}:{ev.node.lineno}", "worker store target", "the worker leaves its row in the mapping it was handed",
+                          extracted=repr(ev.obj), required="the shared mapping parameter", function=site)
                 key_ok = isinstance(ev.key, ElemV) and ev.key.var == QUERY and ev.key.role == "key"
                 rep.check(key_ok, "PAR.key", f"{site}:{ev.node.lineno}", "worker store key", "the worker stores its row under the query's own key",
                           extracted=repr(ev.key), required="the query key", function=site)
@@ -647,6 +704,8 @@ def _rows(rep, ex: Explorer, which=("single", "worker", "multi", "manager")):
             if outcome == "TimeoutError":
                 rep.check(p.outcome[0] == "return" and len(sets) == 1, "TIMEOUT.row", site, "worker expiry", "an expiry in a worker becomes a flagged row, not an exception",
                           extracted=f"{p.outcome[0]}, {len(sets)} row(s)", required="one flagged row", function=site)
+            elif p.outcome[0] == "return":
+                rep.check(len(sets) == 1, "PAR.key", site, "worker leaves its row", "a worker that got an answer leaves exactly one row in the shared mapping", extracted=f"{len(sets)} row(s) stored", required="1", function=site)
         stats["worker_rows"] = n
     # ---- multi_inference
     if "multi" in which:
@@ -767,6 +826,13 @@ def _multi(rep, ex: Explorer, stats):
 
     paths = ex.run(qual, setup, summaries=SUMMARIES, key="multi")
     n_start = n_store = 0
+    QF = ("members", ("keys", "Q"))
+    from ..absvals import FuncV
+    shared = set()
+    for p in paths:
+        for ev, Q in iter_events(p.events):
+            if ev.kind == "mp.dict" and isinstance(ev.obj, Ref):
+                shared.add(ev.obj.oid)
     for p in paths:
         for ev, Q in iter_events(p.events):
             if ev.kind == "loop":
@@ -784,6 +850,13 @@ def _multi(rep, ex: Explorer, stats):
                         ok = len(items) >= 2 and isinstance(items[0], ElemV) and items[0].role == "key" and isinstance(items[1], ElemV) and items[1].role == "cond" and items[0].var == items[1].var
                         rep.check(ok, "PAR.key", f"{site}:{e.node.lineno}", "worker arguments", "each worker receives the query together with its own key",
                                   extracted=repr(items[:2]), required="(key of q, q)", function=site)
+                        rep.check(ev.fam == QF and (not ok or items[0].var == ev.evar), "PAR.key", f"{site}:{e.node.lineno}", "one worker per submitted query", "workers are created in a loop over the submitted queries",
+                                  extracted=F.show_desc(ev.fam), required="the submitted queries", function=site)
+                        okc = len(items) == 4 and isinstance(items[2], Ref) and items[2].oid in shared and items[3] == Sym("timeout", "int")
+                        rep.check(okc, "PAR.key", f"{site}:{e.node.lineno}", "worker container and budget", "each worker gets the shared result mapping and the per-query budget",
+                                  extracted=repr(items[2:]), required="(shared mapping, timeout)", function=site)
+                        rep.check(isinstance(e.target, FuncV) and e.target.qualname == f"{INF}._multi_inference_worker", "PAR.key", f"{site}:{e.node.lineno}", "worker function", "the process runs the worker wrapper",
+                                  extracted=repr(e.target), required="_multi_inference_worker", function=site)
                         rep.check(len(starts) == 1, "PAR.join", f"{site}:{e.node.lineno}", "process started", "every created process is started", extracted=f"{len(starts)} start(s)", required="1", function=site)
                     if joins:
                         alive = None
@@ -796,19 +869,50 @@ def _multi(rep, ex: Explorer, stats):
                             ok = kinds[:1] == ["mp.join"] and "mp.terminate" in kinds and kinds[-1] == "mp.join" and kinds.index("mp.terminate") < len(kinds) - 1
                             rep.check(ok, "PAR.join", f"{site}:{joins[0].node.lineno}", "straggler reaped", "a worker still alive after the timed join is terminated and joined",
                                       extracted=" ".join(kinds), required="join terminate join", function=site)
+                            good = [e for e in stores if isinstance(e.obj, Ref) and e.obj.oid in shared]
+                            rep.check(len(good) == 1, "TIMEOUT.row", f"{site}:{joins[0].node.lineno}", "terminated worker's row stored", "a worker that had to be terminated leaves one row in the shared result mapping",
+                                      extracted=f"{len(good)} store(s) into the shared mapping, {len(stores) - len(good)} elsewhere", required="1", function=site)
                             for e in stores:
                                 n_store += 1
                                 key = e.key
-                                fam_ok = isinstance(key, ElemV) and key.role == "key"
+                                fam_ok = isinstance(key, ElemV) and key.role == "key" and (ev.fam != QF or key.var == ev.evar)
                                 rep.check(fam_ok, "PAR.key", f"{site}:{e.node.lineno}", "terminate-branch store key", "the row of a terminated worker is stored under that query's key",
                                           extracted=repr(key), required="the query key", function=site)
+                                v = e.value
+                                okv = isinstance(v, TupleV) and len(v.items) == 4 and v.items[0] == key
+                                rep.check(okv, "PAR.key", f"{site}:{e.node.lineno}", "terminate-branch row index", "the row of a terminated worker carries that query's key", extracted=repr(v)[:100], required="(key, False, True, ..)", function=site)
                         else:
                             rep.check(len(joins) >= 1, "PAR.join", f"{site}:{joins[0].node.lineno}", "worker joined", "every started process is joined", extracted=f"{len(joins)} join(s)", required=">=1", function=site)
+                            # a worker that finished in time (or whose liveness was never looked at) keeps the row it stored
+                            over = [e for e in stores if isinstance(e.obj, Ref) and e.obj.oid in shared]
+                            rep.check(not over and not terms, "PAR.key", f"{site}:{joins[0].node.lineno}", "finished worker's row kept", "only a worker that is still alive after the timed join is terminated and reported as timed out; the row of a finished worker is not overwritten",
+                                      extracted=f"{len(over)} store(s) into the shared mapping, {len(terms)} terminate call(s) without an alive test", required="none", function=site)
     # the rows handed back: for every submitted query the row its worker stored under the query's key; a query without a
     # stored row (the worker died or was cut off) is reported as timed out with answer False
     for p in paths:
         if p.outcome[0] != "return":
             continue
+        # what is returned: a mapping with, for every submitted query, either the row found in the shared mapping or a
+        # flagged row - and nothing else
+        rv = p.outcome[1]
+        rd = p.state.heap.get(rv.oid) if isinstance(rv, Ref) else None
+        if not isinstance(rd, HDict):
+            rep.violation("ROWS.key", site, "result", "multi_inference returns the mapping from query keys to rows", extracted=repr(rv)[:80], required="the result mapping", function=site)
+            continue
+        groups = {"present": 0, "absent": 0, "other": 0}
+        for e_ in rd.each:
+            _, b_, fam_, g_, kt_, vt_ = e_
+            if fam_ != QF or not (isinstance(kt_, ElemV) and kt_.var == b_ and kt_.role == "key"):
+                groups["other"] += 1
+            elif g_[0] == "in" and g_[1] == ("elem", b_, "key") and isinstance(g_[2], tuple) and g_[2][0] == "dict" and g_[2][1] in shared:
+                groups["present"] += 1
+            elif g_[0] == "not" and g_[1][0] == "in" and g_[1][1] == ("elem", b_, "key") and isinstance(g_[1][2], tuple) and g_[1][2][0] == "dict" and g_[1][2][1] in shared:
+                groups["absent"] += 1
+            else:
+                groups["other"] += 1
+        okg = not rd.entries and not rd.sym and groups == {"present": 1, "absent": 1, "other": 0}
+        rep.check(okg, "ROWS.key", site, "one row per query (parallel)", "the result has, for every submitted query, the row its worker left in the shared mapping or else a flagged row - decided by whether that query's key is in the shared mapping",
+                  extracted=f"{groups['present']} group(s) for stored rows, {groups['absent']} for missing rows, {groups['other']} other, {len(rd.entries)} literal entries", required="1 + 1 over the submitted queries", function=site)
         loops = [ev for ev, Q in iter_events(p.events) if ev.kind == "loop" and not Q and ev.fam == ("members", ("keys", "Q"))]
         for lp in loops:
             for case in lp.cases:
